@@ -256,6 +256,75 @@ def gen_history(rng, exe, heap, nops, stats):
     err = im.close()
     return ops, lines, sfail, err
 
+def edge_histories(exe):
+    """Directed histories, one per (root kind, holder, chain of reference kinds, leaf kind): the ONLY path from the roots to the
+    leaf goes through that holder and those references.  Collect twice with allocations in between (a cell reclaimed by mistake is
+    handed out again and its payload changes).  The random generator reaches such shapes only by luck; a marker that skips one edge
+    kind (array element -> string reference -> string, function -> environment, vector reference inside an array …) shows on the
+    first of these.  Addresses are learnt from I's own state lines."""
+    out = []
+    leaves = [("int", "alloc int 7"), ("str", "alloc str 6869"), ("double", "alloc double 4607182418800017408"), ("cptr", "alloc cptr")]
+    chains = [[], ["strref"], ["vecref"], ["arrref"], ["func"], ["vec"], ["arr"], ["vecref", "vec"], ["arr", "strref"], ["vec", "arrref"], ["func", "arr"], ["arr", "arr"], ["vec", "func"]]
+    for holder in ("vec", "arr", "arr2"):
+        for chain in chains:
+            for lname, lop in leaves:
+                if chain and chain[-1] == "strref" and lname != "str":
+                    continue
+                for rootkind in ("slot", "gp"):
+                    if rootkind == "gp" and holder != "vec":
+                        continue
+                    im = Impl(exe)
+                    ops = []
+                    def do(op):
+                        ops.append(op)
+                        return parse_state(im.send(op))
+                    st = do("new 40")
+                    def alloc(op, st0):
+                        st1 = do(op)
+                        if st0 is None or st1 is None:
+                            return None, st1
+                        a0 = {i for i, c in enumerate(st0["cells"]) if c[2] != "-"}
+                        a1 = {i for i, c in enumerate(st1["cells"]) if c[2] != "-"}
+                        d = sorted(a1 - a0)
+                        return (d[0] if d else None), st1
+                    ok = True
+                    cur, st = alloc(lop, st)
+                    # build the chain from the leaf outwards
+                    for k in reversed(chain):
+                        if cur is None: ok = False; break
+                        if k == "strref": cur, st = alloc("alloc strref %d" % cur, st)
+                        elif k == "vecref":
+                            v, st = alloc("alloc vec 2", st); st = do("setvec %d 1 %d" % (v, cur)); cur, st = alloc("alloc vecref %d" % v, st)
+                        elif k == "arrref":
+                            a, st = alloc("alloc arr 2", st); st = do("setarr %d 0 %d" % (a, cur)); cur, st = alloc("alloc arrref %d" % a, st)
+                        elif k == "func":
+                            v, st = alloc("alloc vec 1", st); st = do("setvec %d 0 %d" % (v, cur)); cur, st = alloc("alloc func %d 17" % v, st)
+                        elif k == "vec":
+                            v, st = alloc("alloc vec 3", st); st = do("setvec %d 2 %d" % (v, cur)); cur = v
+                        elif k == "arr":
+                            a, st = alloc("alloc arr 3", st); st = do("setarr %d 1 %d" % (a, cur)); cur = a
+                    if not ok or cur is None or st is None:
+                        im.close(); continue
+                    if holder == "vec":
+                        h, st = alloc("alloc vec 2", st); st = do("setvec %d 1 %d" % (h, cur))
+                    elif holder == "arr":
+                        h, st = alloc("alloc arr 2", st); st = do("setarr %d 1 %d" % (h, cur))
+                    else:
+                        h, st = alloc("alloc arr 2 2", st); st = do("setarr %d 3 %d" % (h, cur))
+                    if h is None:
+                        im.close(); continue
+                    for g in range(3):
+                        do("alloc int %d" % (900 + g))
+                    root = ("collect %d" % h) if rootkind == "gp" else ("collect 0 u a:%d i:5" % h)
+                    do(root)
+                    for g in range(6):
+                        do("alloc str 7a7a")
+                    do(root)
+                    do("collect 0")
+                    im.close()
+                    out.append(("edge:%s:%s:%s:%s" % (rootkind, holder, "-".join(chain) or "direct", lname), ops))
+    return out
+
 def first_divergence(a, b):
     for i in range(max(len(a), len(b))):
         x = a[i] if i < len(a) else "<no line>"
@@ -336,6 +405,9 @@ def run_correspondence(rep, tier, seed, pid_filter=None):
     if os.path.isdir(corpus_dir):
         for f in sorted(os.listdir(corpus_dir)):
             histories.append(("corpus:" + f, [l.strip() for l in open(os.path.join(corpus_dir, f)) if l.strip() and not l.startswith("#")]))
+    edges = edge_histories(exe)
+    stats["edge_histories"] = len(edges)
+    histories += edges
     for name, ops in histories:
         il, err = run_impl(exe, ops)
         ml = run_model(ops)
